@@ -176,7 +176,9 @@ func (s *Store) AddSourceSnapshot(ckpt *jobpb.SourceRunnerCheckpointCompleteRequ
 func (s *Store) RegisterSourceSplitter(splitter connectors.SourceSplitter) {
 	s.stateMu.Lock()
 	defer s.stateMu.Unlock()
-	s.sourceSplitters = append(s.sourceSplitters, splitter)
+	// Every (re)start of the assembly creates a new splitter that replaces the
+	// previous one.
+	s.sourceSplitters = []connectors.SourceSplitter{splitter}
 }
 
 func (s *Store) finishSnapshot(snap *jobSnapshot) {
